@@ -41,19 +41,19 @@ T = {
          "held on explored schedules: roles complementary, at most one selected live connection per side, follower only on leader-selected link, re-convergence within the drain bound",
          "Noise stand-in; state probes read anchored private state between steps", "3/C11"),
  "C12": ("exploration", "runtime monitoring: codec round-trip oracle on real _Framer/_Record with the Noise stand-in under all fragmentations + rejection oracle under attacks on a live listener",
-         "held for generated records (all 7 types, boundary sizes) and chunkings; unkeyed/corrupt input dropped with nothing surfaced",
+         "held for generated records (all 7 types, boundary sizes) and chunkings; unkeyed/corrupt input dropped with nothing surfaced, except the recorded finding: a multi-Noise-message frame re-framed at a message boundary (known_findings.json)",
          "Noise stand-in", "3/C12"),
  "C13": ("exploration", "runtime monitoring: protocol-callback oracle over random connect/listen/write/close interleavings on a dilated pair",
-         "held on explored interleavings: one buildProtocol per open with the requested subprotocol, disjoint ids, data before close, single connectionLost, write-after-close raises, undeclared subprotocol refused",
+         "held on explored interleavings: one buildProtocol per open with the requested subprotocol, disjoint ids, data before close, single connectionLost, write-after-close raises, undeclared subprotocol refused; recorded finding: half-closeable protocols never get connectionLost",
          "Noise stand-in", "3/C13"),
  "C14": ("exploration", "runtime monitoring: automat NoTransition monitor + log/escape monitors over random legal API programs against an awkward-but-conformant real server",
          "held on explored programs/schedules; evidence lists distinct (machine,state,input) pairs exercised",
-         "scope: mailbox-layer machines; tls late-delivery labelled", "3/C14"),
+         "scope: every automat machine of the client incl. Dilation when dilate() is called (no subchannel traffic); tls late-delivery labelled", "3/C14"),
  "C15": ("exploration", "runtime monitoring: recording producers + transport probes between scheduler steps under tiny send buffers, random (un)registration and link replacement",
          "held on explored schedules: all producers paused while blocked, all resumed after drain, inbound pause iff some live subchannel paused",
          "Noise stand-in; probes of Outbound/Inbound state between steps", "3/C15"),
  "C16": ("exploration", "runtime monitoring: virtual-time oracle on ping/pong/drop events for responsive, slow and silent (blackholed) peers over many ping intervals",
-         "held on explored intervals/latencies: silent peer dropped < 3 intervals after last answered ping, responsive peer never dropped, monitoring stops/resumes with the connection",
+         "held on explored intervals/latencies: silent peer dropped < 3 intervals after last answered ping, responsive peer never dropped, monitoring stops/resumes with the connection; recorded finding: the Leader drops a responsive peer while its own application has paused reading",
          "Noise stand-in; virtual time", "3/C16"),
  "C17": ("fault_enumeration", "runtime monitoring: close() swept over every step of dilation baselines; network-monitor leak oracle + OldPeerCannotDilateError oracle",
          "held for close at every swept step: close fires, no listener/pending connect/live connection/timer left; incapable peer reported",
